@@ -104,6 +104,7 @@ class Obs:
         self.rects = {}  # sid -> (left, top, cols, rows)
         self.cellmap = {}  # (c, r) -> leaf node
         self.sizes = {}  # id(widget) -> size it was rendered at (last)
+        self.dims = {}  # id(widget) -> (cols, rows) of the canvas it produced
         self.cols = self.rows = 0
 
 
@@ -124,14 +125,41 @@ def under_overlay_bottom(leaf) -> bool:
     return False
 
 
+def containers_clipped(root, dims):
+    """fit precondition, container level, by observation of the canvases actually rendered: no widget's canvas is
+    larger than its parent's, and stacked / joined children do not add up to more than the parent shows"""
+    for n in root.walk():
+        if n.is_leaf():
+            continue
+        pd = dims.get(id(n.w))
+        if pd is None:
+            continue
+        cds = [dims.get(id(c.w)) for c in n.children]
+        cds = [d for d in cds if d is not None]
+        for d in cds:
+            if d[0] > pd[0] or d[1] > pd[1]:
+                return "container_child_larger_than_parent"
+        if n.kind in ("Pile", "ListBox", "Frame") and sum(d[1] for d in cds) > pd[1]:
+            return "container_children_taller_than_parent"
+        if n.kind == "Columns" and sum(d[0] for d in cds) + n.recipe.get("div", 0) * max(0, len(cds) - 1) > pd[0]:
+            return "container_children_wider_than_parent"
+        if n.kind == "LineBox" and cds:
+            sd = n.recipe.get("sides", "tlrb")
+            if cds[0][0] + ("l" in sd) + ("r" in sd) > pd[0] or cds[0][1] + ("t" in sd) + ("b" in sd) > pd[1]:
+                return "container_linebox_border_clipped"
+    return ""
+
+
 def observe(root, size, log, focus=True) -> Obs:
     o = Obs()
     seen = {}
+    dims = {}
     orig_validate = _ww.validate_size
 
     def spy_validate(widget, sz, canv):
         orig_validate(widget, sz, canv)
         seen[id(widget)] = tuple(sz)
+        dims[id(widget)] = (canv.cols(), canv.rows())
 
     leaves = root.leaves()
     for lf in leaves:
@@ -154,6 +182,11 @@ def observe(root, size, log, focus=True) -> Obs:
         o.reason = "widget_warning"
         return o
     o.sizes = seen
+    o.dims = dims
+    why = containers_clipped(root, dims)
+    if why:
+        o.reason = why
+        return o
     try:
         grid = read_grid(canv)
     except UnicodeDecodeError:
@@ -840,10 +873,34 @@ def run(ctx):
                 r, s = queue.pop(0)
                 ctx.count("rerooted_subtrees")
                 do_case(ctx, r, s, queue)
+        if ctx.shard == 0:
+            ctx.extra["outside_domain_observations"] = outside_domain_probe()
     finally:
         if old_enc:
             urwid.set_encoding(old_enc)
     reach.flush(ctx)
+
+
+def outside_domain_probe():
+    """informational only (never a verdict): a design candidate that lies outside the statement's domain because a
+    scrollbar is only drawn when the content does NOT fit (a child is clipped), and ScrollBar is not in the quantifier"""
+    out = {}
+    try:
+        for side in ("right", "left"):
+            log = []
+            a = S.SpyFlow(0, "a", log, rows=2)
+            b = S.SpyFlow(1, "b", log, rows=4)
+            sb = urwid.ScrollBar(urwid.Scrollable(urwid.Pile([a, b])), side=side)
+            canv = sb.render((6, 3), True)
+            row0 = read_grid(canv)[0]
+            x = row0.index("a")
+            del log[:]
+            sb.mouse_event((6, 3), "mouse press", 2, x, 0, True)
+            got = [e[5] for e in log if e[0] == "mouse"]
+            out[f"ScrollBar[{side}]+overflow: event on leftmost leaf cell (col {x}) delivered with col"] = got
+    except Exception as e:  # noqa: BLE001
+        out["error"] = f"{type(e).__name__}: {e}"
+    return out
 
 
 def _spy(mode="flow", **kw):
